@@ -25,7 +25,7 @@ import traceback
 import sympy as sp
 
 import ser
-from C11_impl import err_of, Conc, rand_map
+from C11_impl import err_of, Conc, rand_map, numeric_equal
 
 
 def make_mapping(m, ldim, pdim):
@@ -282,9 +282,9 @@ def oracle(case, res, maps):
         want = phys.subs(sub, simultaneous=True) * meas
         want_unit = phys_unit.subs(sub, simultaneous=True) * meas
         o = {}
-        ok, info = ser.numeric_equal(conc.sx(k["expr"], True), want, conc)
+        ok, info = numeric_equal(conc.sx(k["expr"], True), want, conc)
         o["ok"], o["info"] = bool(ok), info
-        ok, info = ser.numeric_equal(conc.sx(k["unit"], True), want_unit, conc)
+        ok, info = numeric_equal(conc.sx(k["unit"], True), want_unit, conc)
         o["unit_ok"], o["unit_info"] = bool(ok), info
         kos.append(o)
     out["kernels"] = kos
@@ -304,6 +304,8 @@ def run_case(case):
     D, patches, maps = build(case)
     env = EnvP(case["pdim"])
     res = {}
+    if ser.build_sx(case["integrand"], env) == 0:
+        return {"err": "degenerate-zero-integrand"}      # Integral(0, region) is the number 0: nothing to transform
     try:
         full = lower(case, D, patches, env, unit=False)
         unit = lower(case, D, patches, env, unit=True)
